@@ -617,6 +617,7 @@ Fixpoint sem (n : nat) (g : G) (ctx : env) (p : nat) (a : reg) {struct n} : opti
   | Pratt atom ops => pratt_sem run n' atom ops ctx 0 p a
   | GroupArr gs => group_sem run gs ctx p a [] []
   | NestedIn _ => None                          (* not part of this specification: see Model/Nested.v *)
+  | WithState _ _ => None                       (* not part of this specification (the observed state is not positional) *)
   | Skip k => Some (Some (VUnit, Nat.max p (Nat.min (p + k) (length toks)), []), a)
   | ExtWrap x =>
       (* an extension parser hands its failure back as a value: the pending error is re-recorded at the parser's start *)
